@@ -168,7 +168,12 @@ TrNext(kind) ==
             /\ ANext(it)
             /\ LET exp == last'.res
                    (* a group tree in the IterAmbig zone: the reference tree or the tree of the engine's discipline *)
-                   st2 == IF kind = "ana" /\ m # <<>> /\ DualZone(P, s) THEN AnaStep(EngView(P), s, iters[it].st) ELSE <<>>
+                   (* (a match that was found one step earlier and is pending behind a NonMatch entry carries the captures   *)
+                   (* of the reference semantics: the engine view computes its own match from the same position)            *)
+                   ist == iters[it].st
+                   ist2 == IF ist.pend # <<>> THEN [ist EXCEPT !.pend = FirstM(EngView(P), s, ist.pend.st)] ELSE ist
+                   st2 == IF kind = "ana" /\ m # <<>> /\ DualZone(P, s) /\ (ist.pend = <<>> \/ ist2.pend # <<>>)
+                          THEN AnaStep(EngView(P), s, ist2) ELSE <<>>
                    dual == st2 # <<>> /\ st2.m # <<>> /\ TreeDefinite(P, m) /\ TreeDefinite(P, st2.m)   \* (else: flat, as before)
                    exp2 == IF dual THEN st2.res ELSE exp
                    same == IF full \/ exp.k # "some" \/ ~some THEN Ev.res = exp
